@@ -585,6 +585,16 @@ def generate(prop, run_seed, tier='quick', tolerate=frozenset()):
         coros.append({'yields': ys, 'ret': crng.choice(RETS)})
     dts = [1, 1, 2] if crowd and crng.random() < .6 else \
         crng.sample(DTS, crng.randint(1, 4))
+    if crng.random() < .1:
+        # very long waits and frames (the shared timer grows large; all
+        # values stay exactly representable)
+        big = [65000, 65536, 65537, 70000, 131072, 2 ** 20, 40000]
+        for co in coros:
+            co['yields'] = [crng.choice(big) if (y != 'N' and isinstance(
+                y, (int, float)) and not isinstance(y, bool) and y > 0
+                and crng.random() < .6) else y for y in co['yields']]
+        dts = crng.sample([1, 500, 30000, 65536, 66000, 2 ** 17, 0.5, 536],
+                          crng.randint(2, 4))
     cfg = {'in_world': crng.random() < .33, 'coros': coros}
     life = prop == 'C09'
     w = dict(frame=6, start=2, kill=.4, pkill=.1, state=.3, pstate=.1,
